@@ -94,10 +94,10 @@ static int fidelity(uint64_t seed, long n) {
 static int replay(const char *path) {
   CMInputs in;
   if (!in.load(path)) return 2;
-  if (in.job != "print_groups") { std::printf("NOT-REPRODUCED: no native oracle for job %s\n", in.job.c_str()); return 0; }
+  if (in.job.find("print_groups") == std::string::npos && in.job.find("parse_line") == std::string::npos) { std::printf("NOT-REPRODUCED: no native oracle for job %s\n", in.job.c_str()); return 0; }
   int bad = 0;
   std::string why;
-  if (in.has("in_gs") && in.has("in_ks")) {
+  if (in.job.find("print_groups") != std::string::npos && in.has("in_gs") && in.has("in_ks")) {
     /* the verifier's two stacks as two keys of one dictionary: equal tokens get equal names; the names are chosen so
      * that the 'groupname' path sorts first where that is possible */
     std::map< uint64_t, std::string > name;
